@@ -260,6 +260,9 @@ def live_tree(pi: int, mut: int, ns: int, svc_state: int, app_state: int, nic_en
         cover("mutated")
         check(not reached, f"mutated request {request} reached a handler")
         check(resp.status == "unreachable" or resp.status == "failure", f"mutated request {request} answered {resp.status}")
+    if st != "ON" and not (len(request) == 4 and request[3] == "startup"):
+        # a node that is not ON refuses every request except start-up (node-is-on permission rule on every route)
+        check(not reached, f"request {request} reached its handler although the node is {st}")
     if not reached:
         cover("not_reached")
         check(resp.status in ("unreachable", "failure"), f"request {request} did not reach its handler but answered {resp.status}")
@@ -321,7 +324,8 @@ def actions_reach(ai: int, ns: int, svc_state: int, app_state: int, nic_en: bool
     check(resp is not None and resp.status in STATUSES, f"action {name}: undocumented status")
     if missing:
         cover("missing_target")
-        check(not reached and resp.status in ("unreachable", "failure"), f"action {name} {opts} names a missing component but answered {resp.status}")
+        # (an unknown application TYPE is not a component of the tree: its install handler is reached and must refuse)
+        check((not reached or name == "node-application-install") and resp.status in ("unreachable", "failure"), f"action {name} {opts} names a missing component but answered {resp.status}{' after reaching a handler' if reached else ''}")
         check(resp.status != "success", "action on a missing component succeeded")
         with concrete():
             after = snap(sim)
@@ -353,11 +357,12 @@ HARNESSES = {
     },
     "live_tree": {
         "fn": live_tree,
-        "quick": [{"fixed": {"kind": "switched", "ns": n, "mut": m, "couple": True}, "timeout": 280} for n in (0, 2) for m in (-1, 3, 4, 103)],
+        "quick": [{"fixed": {"kind": "switched", "ns": n, "mut": m, "couple": True}, "timeout": 280} for n in (0, 2) for m in (-1, 3, 4, 103)]
+        + [{"fixed": {"kind": "switched", "ns": 0, "mut": m, "svc_state": 0, "app_state": 0}, "timeout": 280} for m in (104, 105, 106, 107)],
         "thorough": [{"fixed": {"kind": k, "ns": n}, "timeout": 1500} for k in ("switched", "routed") for n in range(4)],
         "cover": ["reached", "not_reached"],
         "bounds": {
-            "quick": "all argument-free/templated leaf paths of client_1; node ON/OFF; unmodified, misspelt at depth 3/4, truncated to 3; all service and application states",
+            "quick": "all argument-free/templated leaf paths of client_1; node ON/OFF; unmodified, misspelt at depth 3/4, truncated to 3..7 elements; all service and application states",
             "thorough": "both topologies, all 4 power states, every mutation position and truncation length",
         },
     },
